@@ -249,6 +249,10 @@ class Tracer:
         if why:
             rec["unmodelled"].append(why)
             info["skip"] = True
+            # keep the tokens meaningful for the later (modelled or not) applications and for the node signatures
+            for ov, nv in zip(old_values, new_values):
+                if id(nv) not in self.tok:
+                    self.set_token(nv, self.token(ov))
             return info
         path = self.find_path(rec["top"], gof)
         if path is None:
